@@ -58,7 +58,10 @@ def run_case(case):
     compress = bool(rng.integers(0, 2))
     sites = np2.shank_assignment(rng, mode, nsh)
     enc = str(rng.choice(["shank", "geom"]))
-    b, rec = np2.build(rng, d, ns=ns, gain=gain, sites=sites, content=content, encoding=enc)
+    # free-form fields an experimenter or the acquisition software may leave in the header: they travel through the split and back unchanged
+    notes = {"userNotes": str(rng.choice(["", "mouse A12; depth 3.5,4.1 mm", "0.40,0.10,0.02", "0.5,2", "1,2.25,3", "gain=500 ref=ext", "see D:/notes/2024-05-01.txt", "12,13,14"])),
+             "rmt_USERTAG": str(rng.choice(["", "a=b=c", "7", "7.50", "1e-3"]))}
+    b, rec = np2.build(rng, d, ns=ns, gain=gain, sites=sites, content=content, encoding=enc, extra_meta=notes)
     raw = rec.raw
     second = str(rng.choice(["", "", "overwrite", "init+overwrite"])) if not case.get("long") else ""
     # the original as it may arrive: duration written with a few decimals only, and / or already compressed
@@ -182,11 +185,36 @@ def run_case(case):
                 v0, v1 = m0[k], m1[k]
                 eq = (v0 == v1) if not isinstance(v0, float) else (isinstance(v1, float) and v0 == v1)
                 res.check(eq, "reconstruct:meta-field", f"{label}: meta field {k!r}: original {v0!r} reconstructed {v1!r}", counter="meta_fields_compared")
+            # the same comparison on the TEXT of the two files (harness-side split on the first '='): a field may be re-written in another numeric
+            # spelling (384.0 -> 384), but not with another content
+            t0 = _mini(orig_meta_text)
+            t1 = _mini(out.with_suffix(".meta").read_text())
+            for k in sorted(set(t0) & set(t1)):
+                if t0[k] != t1[k] and not _same_numbers(t0[k], t1[k]):
+                    res.violation("reconstruct:meta-field:text", f"{label}: meta field {k!r}: original text {t0[k]!r}, reconstructed text {t1[k]!r}")
+            res.count("meta_text_compared")
     except AssertionError as e:
         res.violation("reconstruct:assertion", f"{label}: reconstructor raised AssertionError {e}")
     except Exception as e:
         res.exception("reconstruct:exception", e, label)
     return _done(res, label, gain, mode, nsh, allv)
+
+
+def _mini(text):
+    d = {}
+    for ln in text.splitlines():
+        if "=" in ln:
+            k, v = ln.split("=", 1)
+            d[k.lstrip("~")] = v
+    return d
+
+
+def _same_numbers(a, b):
+    try:
+        xa, xb = [float(t) for t in a.split(",")], [float(t) for t in b.split(",")]
+        return xa == xb
+    except ValueError:
+        return False
 
 
 def _done(res, label, gain, mode, nsh, allv):
